@@ -135,7 +135,7 @@ func (P) Generate(g *core.Gen) {
 	for i := g.N(2, 8); i > 0; i-- {
 		genLru(g.R, i%2 == 0, emit)
 	}
-	for i := g.N(2, 10); i > 0; i-- {
+	for i := g.N(4, 12); i > 0; i-- {
 		g.Case("parallel-blocks", true, genParBlocks(g.R))
 	}
 	for i := g.N(3, 30); i > 0; i-- {
